@@ -40,7 +40,7 @@ def cases(tier, seed):
         yield "tx.dump", {"table": table, "mode": mode, "px": px, "o": o, "header": F_h("m5@38", 5) == 0,
                           "wexp": [rng.choice([0, 1, 2, -1]) for _ in range(n)] if balanced else [],
                           "chunk": rng.choice([1, 2, 3, 10 ** 6]), **({"at": ["/resolutions/10", "/a/b"][F_h("m2@40", 2)]} if F_h("m5@40", 5) == 3 else {}),
-                          "prior": F_h("m6@41", 6) == 1}
+                          "prior": F_h("m6@41", 6) == 1, "out": ["stdout", "stdout", "fresh", "existing"][F_h("out", 4)]}
     # (2) field layouts at arbitrary, non-monotone column numbers
     nl = 220 if tier == "quick" else 4000
     for h in range(nl):
